@@ -128,7 +128,7 @@ class Sched:
                     self.trace.append(me)
                     self.cv.notify_all()
                     return
-                if not self.cv.wait(timeout=20):
+                if not self.cv.wait(timeout=300):
                     self.stuck = True
                     self.trace.append(me)
                     return
@@ -176,7 +176,9 @@ def run_token_schedule(progs, schedule):
     for t in ths:
         t.start()
     for t in ths:
-        t.join(60)
+        t.join(900)
+    if any(t.is_alive() for t in ths):
+        s.stuck = True   # a wall-clock watchdog firing is inconclusive, never a violation
     return res, s
 
 
@@ -221,7 +223,9 @@ def run_call_schedule(progs, schedule):
         for t in ths:
             t.start()
         for t in ths:
-            t.join(120)
+            t.join(900)
+        if any(t.is_alive() for t in ths):
+            s.stuck = True
     finally:
         mon.set_events(tool, 0)
     return res, s
@@ -337,7 +341,7 @@ def run_shard(spec):
                 for t in ths:
                     t.start()
                 for t in ths:
-                    t.join(300)
+                    t.join(1800)
                 for key, (prog, got) in out.items():
                     res["evaluations"] += 1
                     cnt["parses"] += 1
